@@ -1073,7 +1073,8 @@ pub fn run(ctx: &Ctx) -> Outcome {
     let budget = ctx.tier.budget_s();
     let m1 = LifeModel::new(if quick { "life-remember-q" } else { "life-remember-t" }, quick, false);
     let m2 = LifeModel::new(if quick { "life-expire-q" } else { "life-expire-t" }, quick, true);
-    let maxd = if quick { 8 } else { 11 };
+    // quick: explicit, machine-independent depth (the push model, much smaller, goes to 11)
+    let maxd = if quick { 7 } else { 11 };
     let m3 = LifeModel::new_variant(if quick { "life-mid-q" } else { "life-mid-t" }, quick, false, true);
     let s1 = ServerLife::new(if quick { "server-life-remember-q" } else { "server-life-remember-t" }, quick, false);
     let s2 = ServerLife::new(if quick { "server-life-expire-q" } else { "server-life-expire-t" }, quick, true);
@@ -1087,7 +1088,7 @@ pub fn run(ctx: &Ctx) -> Outcome {
     let r6 = search(ctx, &m4, "C19", maxd, budget * 1.15, true);
     let r7 = search(ctx, &s3, "C19", maxd, budget * 1.35, true);
     let p1 = PushLife::new(if quick { "push-life-q" } else { "push-life-t" }, quick);
-    let r8 = search(ctx, &p1, "C19", if quick { 12 } else { 16 }, budget * 1.55, true);
+    let r8 = search(ctx, &p1, "C19", if quick { 11 } else { 16 }, budget * 1.55, true);
     fill_outcome(&mut out, &[(m1.name, &r1), (m2.name, &r2), (m3.name, &r3), (s1.name, &r4), (s2.name, &r5), (m4.name, &r6), (s3.name, &r7), (p1.name, &r8)]);
     out.set("exhaustive", json!(false));
     out.set("alphabet", json!(m2.events.iter().map(|e| format!("{:?}", e)).collect::<Vec<_>>()));
